@@ -24,6 +24,7 @@ TRUSTED = [
 ASSUMPTIONS = [
     "terms compare by (class, lexical form, datatype, language): the pool contains no two distinct terms that rdflib considers equal",
     "members of a negated property set are IRIs or inverted IRIs (the SPARQL grammar); InvPath(<path>) inside NegatedPath is outside the model",
+    "the Python interpreter's resources (stack depth, memory) are outside the model; suite deep_chain checks chains of up to 2500 steps",
     "SPARQL route: the text->tree step of parser.py is covered by conformance only (suite translate compares the translated object with the model of translatePath on the tree the text was rendered from); 'a' and DISTINCT(path) are not generated",
 ]
 RULE = ("path AST of depth <= 4 (iri, ^, /, |, * + ?, negated sets) x graph of <= 8 triples over <= 5 nodes with self-loops, 2-cycles, "
@@ -39,7 +40,9 @@ RULE = ("path AST of depth <= 4 (iri, ^, /, |, * + ?, negated sets) x graph of <
         "(alternatives of sequences of optionally inverted elements with optional modifier over iri / negated set / parenthesised path, depth <= 3, "
         "single-part alternatives and sequences, redundant parentheses, bare and parenthesised negated sets), rendered to text, parsed and translated by "
         "rdflib; the translated object's structure is compared with the model of translatePath and its relation with the tree's relation over a "
-        "small graph; non-trivial = the object is not a plain IRI.  Suite paths also inserts the triples in list / reversed / shuffled order")
+        "small graph; non-trivial = the object is not a plain IRI.  Suite path_in_graph also asks a ReadOnlyGraphAggregate of the layout's graphs "
+        "(triples, SPARQL, `in`).  Suite same_var: ?x path ?x.  Suite deep_chain: closures over chains of 1100-2500 triples (beyond the recursion "
+        "limit), number of answers compared with the model's eval and the closed form.  Suite paths also inserts the triples in list / reversed / shuffled order")
 
 NODE_VOCAB = [1, 2, 12, 8, 13, 5, 6, 7, 10, 14]   # a b c _:b1 _:b2 "" 0 false "x" 0.0
 LITS = {5, 6, 7, 9, 10, 11, 14}
@@ -230,6 +233,29 @@ class C11(Suite):
 
         d = rng.choice([1, 2, 2, 3, 3, 3, 4, 4])
         path = gen_path(rng, d, preds, singles=not via.startswith("sparql"))
+        if rng.random() < 0.12:
+            # closure over a cycle of length 2-4 with tails and chords, both ends unbound (or one): every start of
+            # _all_fwd_paths runs its own search through the same cycle
+            k2 = rng.choice([2, 3, 3, 4])
+            cyc = rng.sample([1, 2, 12, 8, 13], k2)
+            pp = rng.choice(preds)
+            g = [[cyc[j], pp, cyc[(j + 1) % k2]] for j in range(k2)]
+            for _ in range(rng.choice([0, 1, 2, 3])):
+                t = [rng.choice(cyc), rng.choice(preds), rng.choice(cyc + [6, 5, 10])]
+                if t not in g:
+                    g.append(t)
+            rng.shuffle(g)
+            inner = rng.choice([["iri", pp], ["iri", pp], ["alt", [["iri", 3], ["iri", 4]]], ["inv", ["iri", pp]],
+                                ["seq", [["iri", pp], ["iri", pp]]]])
+            path = ["mul", inner, rng.choice(["+", "*", "+"])]
+            if rng.random() < 0.3:
+                path = rng.choice([["inv", path], ["seq", [path, ["iri", rng.choice(preds)]]], ["alt", [path, ["iri", 4]]]])
+            nodes = {t[0] for t in g} | {t[2] for t in g}
+            outside = [x for x in range(1, len(TERM_POOL) + 1) if x not in nodes]
+            r = rng.random()
+            ends = (None, None) if r < 0.7 else ((rng.choice(cyc), None) if r < 0.85 else (None, rng.choice(cyc)))
+            return {"g": g, "path": path, "s": ends[0], "o": ends[1], "via": via,
+                    "order": rng.choice(["list", "reversed", "shuffled"])}
         # "order": the triples are inserted into the store in another order than the model's list order, so the store
         # enumerates the matches differently (theorem C11_order_independent says the multiset must not care)
         return {"g": g, "path": path, "s": end(), "o": end(), "via": via,
@@ -239,9 +265,7 @@ class C11(Suite):
     def run_impl(self, case):
         try:
             return ["ok", sorted(self._pairs(case))]
-        except RecursionError:
-            return ["timeout"]
-        except Exception as e:  # noqa: BLE001
+        except Exception as e:  # noqa: BLE001  (RecursionError included: it is an exception the caller sees, not a timeout)
             return ["raised", type(e).__name__ + ": " + str(e)[:80]]
 
     def on_timeout(self, case):
@@ -341,7 +365,7 @@ class C11(Suite):
             f["answer_nonempty"] = int(bool(obs[1]))
             f["answer_has_duplicates"] = int(len({tuple(x) for x in obs[1]}) != len(obs[1]))
         else:
-            f["obs_" + obs[0]] = 1
+            f["obs_" + obs[0] + ("_" + obs[1].split(":")[0] if len(obs) > 1 else "")] = 1
         return f
 
     def shrink(self, case):
@@ -543,8 +567,6 @@ class C11H(Suite):
             if st[0] == "eval":
                 try:
                     obs.append(["ok", sorted(eval_on(g, st[1], st[2], st[3], st[4]))])
-                except RecursionError:
-                    obs.append(["timeout"])
                 except Exception as e:  # noqa: BLE001
                     obs.append(["raised", type(e).__name__ + ": " + str(e)[:80]])
             elif st[0] == "add":
@@ -677,6 +699,9 @@ G_ROUTES = ["direct", "ctx_graph", "ctx_name", "quad", "contains", "sparql_graph
 
 def effective(case):
     lay = dict((g, ts) for g, ts in case["layout"])
+    if case["kind"] == "agg":
+        # the aggregate enumerates its members one after the other: a triple held by two members is met twice
+        return [t for _, ts in case["layout"] for t in ts]
     if case["target"] != 0:
         return lay.get(case["target"], [])
     if case["kind"] == "ds_plain":
@@ -703,7 +728,7 @@ class C11G(Suite):
     timeout_s = 10.0
 
     def gen(self, rng, i):
-        kind = rng.choice(["cg", "ds_union", "ds_plain", "ds_plain"])
+        kind = rng.choice(["cg", "ds_union", "ds_plain", "ds_plain", "agg"])
         k = rng.choice([2, 3, 3, 4])
         vocab = rng.sample(NODE_VOCAB, k)
         preds = list(PREDS)
@@ -728,8 +753,12 @@ class C11G(Suite):
                 if t not in lay[h]:
                     lay[h].append(t)
         r = rng.random()
-        target = 0 if r < 0.2 else rng.choice(gids)
-        if target == 0:
+        target = 0 if (r < 0.2 or kind == "agg") else rng.choice(gids)
+        if kind == "agg":
+            # ReadOnlyGraphAggregate over the layout's graphs as separate Graph objects: the pattern is asked of the
+            # aggregate as a whole (triples, SPARQL on the aggregate)
+            route = rng.choice(["none", "none", "sparql_agg", "contains"])
+        elif target == 0:
             route = rng.choice(["none", "none", "ctx_graph", "contains"])
         else:
             route = rng.choice(G_ROUTES)
@@ -754,16 +783,37 @@ class C11G(Suite):
     def run_impl(self, case):
         try:
             return ["ok", sorted(self._pairs(case))]
-        except RecursionError:
-            return ["timeout"]
-        except Exception as e:  # noqa: BLE001
+        except Exception as e:  # noqa: BLE001  (RecursionError included: it is an exception the caller sees, not a timeout)
             return ["raised", type(e).__name__ + ": " + str(e)[:80]]
 
     def on_timeout(self, case):
         return ["timeout"]
 
+    def _pairs_agg(self, case):
+        from rdflib.graph import ReadOnlyGraphAggregate
+        members = []
+        for gid, ts in case["layout"]:
+            m = Graph()
+            for t in ts:
+                m.add(tuple(term(x) for x in t))
+            members.append(m)
+        agg = ReadOnlyGraphAggregate(members)
+        s = None if case["s"] is None else term(case["s"])
+        o = None if case["o"] is None else term(case["o"])
+        if case["route"] == "sparql_agg":
+            return _ONE._sparql(agg, {"via": "sparql", "path": case["path"]}, s, o)
+        p = build(case["path"])
+        if ast_of(p) != case["path"]:
+            raise AssertionError("harness: path object differs from the case's AST")
+        out = [[term_id(x), term_id(y)] for x, _, y in agg.triples((s, p, o))]
+        if case["route"] == "contains" and ((s, p, o) in agg) != bool(out):
+            raise AssertionError("(s, path, o) in aggregate disagrees with aggregate.triples((s, path, o))")
+        return out
+
     def _pairs(self, case):
         kind = case["kind"]
+        if kind == "agg":
+            return self._pairs_agg(case)
         cg = ConjunctiveGraph() if kind == "cg" else Dataset(default_union=(kind == "ds_union"))
         for gid, ts in case["layout"]:
             if gid != 0 and kind != "cg":
@@ -813,7 +863,7 @@ class C11G(Suite):
     # ------------------------------------------------------------ Coq text
     def coq_case(self, case):
         flat = {"g": effective(case), "path": case["path"], "s": case["s"], "o": case["o"],
-                "via": "sparql" if case["route"] == "sparql_graph" else "triples"}
+                "via": "sparql" if case["route"] in ("sparql_graph", "sparql_agg") else "triples"}
         return _ONE.coq_case(flat)
 
     def coq_obs(self, obs):
@@ -821,6 +871,8 @@ class C11G(Suite):
 
     def nontrivial(self, case, obs):
         allt = [t for _, ts in case["layout"] for t in ts]
+        if case["kind"] == "agg":
+            return obs[0] == "ok" and sum(1 for _, ts in case["layout"] if ts) >= 2
         return obs[0] == "ok" and len(effective(case)) < len({tuple(t) for t in allt})
 
     def features(self, case, obs):
@@ -863,6 +915,11 @@ class C11G(Suite):
         P, Q = ["iri", 3], ["iri", 4]
         paths = [["mul", P, "+"], ["mul", P, "*"], ["mul", P, "?"], ["seq", [P, Q]], ["seq", [P, P]], ["inv", P],
                  ["alt", [P, Q]], ["neg", [["iri", 4]]], ["seq", [["mul", P, "*"], Q]], ["mul", ["inv", P], "+"]]
+        for route in ("none", "sparql_agg"):
+            for p in paths:
+                for s, o in ((None, None), (1, None), (None, 12), (2, 6), (1, 12)):
+                    yield {"kind": "agg", "layout": lay, "target": 0, "route": route, "path": p, "s": s, "o": o}
+                    yield {"kind": "agg", "layout": lay + [[5, [[1, 3, 2]]]], "target": 0, "route": route, "path": p, "s": s, "o": o}
         for kind in ("cg", "ds_union", "ds_plain"):
             for target in (0, 1, 2):
                 routes = ["none", "ctx_graph", "contains"] if target == 0 else [
@@ -1110,4 +1167,66 @@ def normal(ast):
     return ast
 
 
-SUITES = [C11(), C11H(), C11G(), C11T(), C11S()]
+
+# ---------------------------------------------------------------------------
+# Closures over chains much longer than the interpreter's recursion limit (finding F4f, repaired): the number of
+# answers is compared with the model's [eval] on the same chain and with the closed form.
+class C11D(Suite):
+    name = "deep_chain"
+    imports = "From RV Require Import Paths.Model."
+    case_ty = "dcase"
+    obs_ty = "dobs"
+    model = "dmodel_obs"
+    oeq = "dobs_eqb"
+    spec = "dspec_ok"
+    corr = "MulPath._fwd / _bwd (explicit-stack search) on chains of 1200-2500 triples; sys.getrecursionlimit() is 1000"
+    quick_n = 4
+    thorough_n = 14
+    timeout_s = 60.0
+    CASES = [(1200, "*", True, False), (1500, "+", False, True), (1300, "+", True, True), (1100, "*", False, True),
+             (2500, "*", True, False), (2500, "+", False, True), (2000, "*", True, True), (1800, "+", True, False),
+             (2200, "?", True, False), (1600, "?", False, True), (60, "+", False, False), (45, "*", False, False),
+             (0, "*", True, True), (1, "?", False, False)]
+
+    def gen(self, rng, i):
+        n, m, sb, ob = self.CASES[i % len(self.CASES)]
+        return {"n": n, "mod": m, "s": sb, "o": ob}
+
+    def run_impl(self, case):
+        node = [URIRef("http://e/n%d" % i) for i in range(case["n"] + 1)]
+        g = Graph()
+        for i in range(case["n"]):
+            g.add((node[i], TERM_POOL[2], node[i + 1]))
+        try:
+            it = g.triples((node[0] if case["s"] else None, MulPath(TERM_POOL[2], case["mod"]),
+                            node[-1] if case["o"] else None))
+            return ["ok", sum(1 for _ in it)]
+        except Exception as e:  # noqa: BLE001
+            return ["raised", type(e).__name__]
+
+    def on_timeout(self, case):
+        return ["timeout"]
+
+    def coq_case(self, case):
+        m = {"*": "ZeroOrMore", "+": "OneOrMore", "?": "ZeroOrOne"}[case["mod"]]
+        return "{| d_len := %d%%nat; d_mod := %s; d_s := %s; d_o := %s |}" % (case["n"], m, cbool(case["s"]), cbool(case["o"]))
+
+    def coq_obs(self, obs):
+        if obs[0] == "ok":
+            return "(Ok %s)" % cN(obs[1])
+        return "OutOfFuel" if obs[0] == "timeout" else "Raised"
+
+    def nontrivial(self, case, obs):
+        return case["n"] > 1000
+
+    def features(self, case, obs):
+        import sys as _sys
+        return {"chain_longer_than_recursion_limit": int(case["n"] > _sys.getrecursionlimit()), "obs_" + obs[0]: 1}
+
+    def shrink(self, case):
+        if case["n"] > 1:
+            yield dict(case, n=case["n"] // 2)
+            yield dict(case, n=case["n"] - 1)
+
+
+SUITES = [C11(), C11H(), C11G(), C11T(), C11S(), C11D()]
